@@ -291,3 +291,7 @@ class EffectsParser:
                 )
                 new_action.numeric_effects.add(numerical_precondition)
                 continue
+
+            raise SyntaxError(
+                f"Unknown effect node in the action {new_action.name}: {effect_node}"
+            )
